@@ -154,6 +154,9 @@ func c16Program(g *prog.Gen, idx int) []*prog.Op {
 			for i := 1 + g.R.Intn(4); i > 0; i-- {
 				o.Grants = append(o.Grants, [2]string{g.R.Pick([]string{"FULL_CONTROL", "READ", "READ_ACP", "WRITE", "WRITE_ACP"}), accs[g.R.Intn(2+g.R.Intn(2))]})
 			}
+			if g.R.Chance(45) {
+				o.Mode = "xml" // as an AccessControlPolicy document instead of grant headers
+			}
 		case r < 63:
 			o = &prog.Op{Kind: "getBucketAcl", B: b}
 		case r < 68:
